@@ -8,7 +8,8 @@ From Coq Require Import ZArith NArith List Bool.
 From Texel Require Import Chess.Types Chess.Position Chess.PositionSpec Chess.PositionB Chess.BitBoard Chess.MoveGen Chess.Spec Chess.MoveGenWF
   Chess.BitBoardProofs Chess.RayProofs Chess.MagicSweep Chess.MagicProofs Chess.MoveGenProofs Chess.AttackProofs
   Chess.SliderProofs Chess.PawnProofs Chess.PseudoProofs Chess.MakeSpecProofs Chess.TryMoveProofs Chess.CastleProofs
-  Chess.LegalProofs Chess.ShortcutProofs Chess.IsLegalProofs Chess.CapturesProofs Chess.NoDupProofs Chess.WfProofs gen.BitBoardTables.
+  Chess.LegalProofs Chess.ShortcutProofs Chess.IsLegalProofs Chess.CapturesProofs Chess.NoDupProofs Chess.WfProofs Chess.IsLegalFull Chess.EvasionsIn Chess.CapChecksSub
+  Chess.IsLegalAll Chess.RemoveIllegalIndep Chess.EvasionsComplete Chess.GivesCheckProofs gen.BitBoardTables.
 Import ListNotations.
 Local Open Scope N_scope.
 
@@ -264,13 +265,11 @@ Print Assumptions C01_captures_complete.
 (** * Full statements not (yet) proved: carried by the correspondence against the Spec
 
     Remaining gaps, each tied to the Spec on every run by the correspondence check:
-    - C01_isLegal: king moves when not in check (attack test with the king lifted from the
-      occupancy) and the "moves along the king's line" exit; everything else is
-      C01_isLegal_partial;
-    - C01_evasions_complete / C01_captures_checks_complete: which pseudo-legal moves the two
-      generators contain (validTargets; discovered-check masks); that removeIllegal keeps
-      exactly the legal ones of whatever they contain is C01_removeIllegal_sublist;
-    - C01_givesCheck. *)
+    - C01_captures_checks_complete: which pseudo-legal moves the generator contains
+      (discovered-check masks); that it generates pseudo-legal moves only is
+      C01_generators_sub, that removeIllegal keeps exactly the legal ones of whatever it
+      contains is C01_removeIllegal_sublist / C01_removeIllegal_independent;
+    - C01_givesCheck: promotions, e.p. captures and castling (the rest is C01_givesCheck_partial). *)
 
 (** C01_nodup: no duplicates in the pseudo-legal list of a well-formed position (distinct
     (from, to, promotion) inside each block; blocks told apart by the piece on the from-square,
@@ -286,14 +285,44 @@ Theorem C01_nodup_legal : forall zk p, emptyKeysZero zk -> WF p -> Consistent zk
 Proof. exact nodup_legal. Qed.
 Print Assumptions C01_nodup_legal.
 
-Definition C01_isLegal_statement : Prop :=
-  forall p m, WF p ->
+(** C01_isLegal: for every move of any of the four generators, in every well-formed position
+    (nothing assumed about hash / material fields), isLegal's verdict is the Spec's legality and
+    the position is handed back unchanged.  Beyond C01_isLegal_partial: king moves when not in
+    check (the attack test with the king lifted from the occupancy = the test on the board after
+    the move; for castling: lifting the king cannot matter when it is not in check), and the
+    "moves along the king's line" exit (the moved piece still shields the king; no other line
+    through the king contains the from-square). *)
+Theorem C01_isLegal : forall p m, WF p ->
     (In m (pseudoLegalMoves p) \/ In m (checkEvasions p) \/ In m (pseudoLegalCapturesAndChecks p) \/ In m (pseudoLegalCaptures p)) ->
     snd (isLegal p m (inCheck p)) = legal_specb (abs p) m /\ samePosition (fst (isLegal p m (inCheck p))) p.
+Proof. exact isLegal_all. Qed.
+Print Assumptions C01_isLegal.
 
-Definition C01_evasions_complete_statement : Prop :=
-  forall zk p m, WF p -> inCheck p = true ->
+(** every move of checkEvasions / pseudoLegalCapturesAndChecks is pseudo-legal (with
+    C01_removeIllegal_sublist: removeIllegal keeps exactly their legal moves) *)
+Theorem C01_generators_sub : forall p m, WF p ->
+  (In m (checkEvasions p) -> In m (pseudoLegalMoves p)) /\
+  (In m (pseudoLegalCapturesAndChecks p) -> In m (pseudoLegalMoves p)).
+Proof. exact (fun p m H => conj (evasions_sub p H m) (capchecks_sub p H m)). Qed.
+Print Assumptions C01_generators_sub.
+
+(** the list removeIllegal computes depends neither on the Zobrist tables nor on the hash /
+    material fields of the position (twin = the position with these fields recomputed): every
+    statement about that list proved under C02's invariant holds without it *)
+Theorem C01_removeIllegal_independent : forall zk p ml,
+  snd (removeIllegal zk p ml) = snd (removeIllegal zkDummy (twin p) ml).
+Proof. exact removeIllegal_twin. Qed.
+Print Assumptions C01_removeIllegal_independent.
+
+(** C01_evasions_complete: when the side to move is in check, removeIllegal (checkEvasions p)
+    is exactly the set of legal moves: every legal move is generated (king moves; a non-king
+    move must capture the single checking piece or land between it and the king - validTargets -
+    or be the e.p. capture, which is always generated; no castling in check; with two checking
+    pieces only king moves), and only legal moves survive the filter. *)
+Theorem C01_evasions_complete : forall zk p m, WF p -> inCheck p = true ->
     (In m (snd (removeIllegal zk p (checkEvasions p))) <-> legal_spec (abs p) m).
+Proof. exact evasions_complete. Qed.
+Print Assumptions C01_evasions_complete.
 
 Definition C01_captures_checks_complete_statement : Prop :=
   forall zk p m, WF p -> legal_spec (abs p) m -> captureCheckClass (abs p) m = true ->
@@ -302,6 +331,25 @@ Definition C01_captures_checks_complete_statement : Prop :=
 (** gives-check verdict for the moves the engine may play (legal moves) *)
 Definition C01_givesCheck_statement : Prop :=
   forall p m, WF p -> legal_spec (abs p) m -> givesCheck p m = gives_check_spec (abs p) m.
+
+(** C01_givesCheck, partial form: proved for every legal move that is not a promotion, not an
+    en-passant capture and not castling - direct checks by the moved piece (rook / bishop /
+    queen through nextPiece towards the king, knight by the direction code, pawn by the
+    adjacent diagonal square; a king never checks) and discovered checks (the from-square leaves
+    the line between the king and an own slider: nextPiece towards the king, nextPieceSafe away
+    from it, and the move does not stay on that line).  nextPiece never leaves the board on
+    these calls and its fuel suffices.  Not covered: the promotion branch (check by the
+    promoted piece, also along the pawn's own line), the two e.p. discovered-check branches
+    and the castling branch (check by the castled rook). *)
+Theorem C01_givesCheck_partial : forall p m, WF p -> legal_spec (abs p) m ->
+  let w := whiteMove p in let pc := getPiece p (mfrom m) in
+  mpromote m = EMPTY ->
+  is_piece w Pawn pc && negb (zf (mto m) =? zf (mfrom m))%Z && (getPiece p (mto m) =? EMPTY) = false ->
+  is_piece w King pc && (zf (mto m) - zf (mfrom m) =? 2)%Z = false ->
+  is_piece w King pc && (zf (mto m) - zf (mfrom m) =? -2)%Z = false ->
+  givesCheck p m = gives_check_spec (abs p) m.
+Proof. exact givesCheck_partial. Qed.
+Print Assumptions C01_givesCheck_partial.
 
 (** C01_wf_preserved: a legal move leads from a well-formed position to a well-formed position
     (for any Zobrist tables; nothing is assumed about the hash / material fields): bitboards
